@@ -97,3 +97,91 @@ def key_problems(facts):
         if e["manual"] or missing:
             bad.append("%s (key of %s): derives %s, hand-written %s" % (n, ", ".join(e["where"][:3]), e["derived"], e["manual"]))
     return bad
+
+
+# ------------------------------------------------------------------ which item a method name resolves to
+STD_METHOD_NAMES = set(
+    """first last len is_empty get iter contains push pop insert remove extend join concat sort dedup retain split_at windows chunks to_vec starts_with ends_with
+    binary_search swap reverse truncate clear drain first_mut last_mut split_first split_last checked_add checked_sub checked_mul checked_div checked_shl checked_shr
+    checked_pow checked_neg checked_rem wrapping_add wrapping_sub wrapping_mul saturating_add saturating_sub saturating_mul overflowing_add overflowing_mul pow abs min max
+    leading_zeros trailing_zeros count_ones to_string is_power_of_two next_power_of_two chars bytes trim trim_start trim_end find replace split split_once rsplit_once parse
+    to_lowercase to_uppercase to_ascii_lowercase to_ascii_uppercase push_str as_str strip_prefix strip_suffix escape_debug escape_default map and_then unwrap unwrap_or
+    unwrap_or_default unwrap_or_else ok_or ok_or_else is_some is_none is_ok is_err take get_or_insert get_or_insert_with filter or or_else zip xor entry keys values
+    contains_key clone eq ne cmp partial_cmp hash fmt into from try_into try_from as_ref as_mut borrow deref default next collect fold any all count sum rev enumerate
+    is_digit to_digit is_alphabetic is_alphanumeric is_numeric is_whitespace is_control is_ascii as_bytes as_secs duration_since now elapsed""".split()
+)
+MODULE_PROPS = {
+    "find_parser": {"C01", "C03", "C05", "C06", "C07", "C08", "C13", "C14", "C17", "C18"},
+    "ast": {"C02", "C03", "C07", "C09", "C10", "C12", "C16", "C17", "C19"},
+    "scheme": {"C02", "C03", "C04", "C07", "C09", "C10", "C11", "C12", "C13", "C15", "C16", "C17", "C20"},
+    "": {"C03", "C13", "C17"},
+}
+FOREIGN = re.compile(r"^(&?(mut)?\s*)?(u8|u16|u32|u64|u128|usize|i8|i16|i32|i64|i128|isize|bool|char|str|String|Vec<|Option<|Result<|HashMap<|HashSet<|BTreeMap<|BTreeSet<|\[|&\[|Box<|Rc<|Arc<|Cow<|T$|[A-Z]$)")
+
+
+def shadowing(facts):
+    """[(mechanism, module the shadow is visible in, text)]
+    (a) an inherent method of a crate type that has the name of a method of a crate trait (`impl Expression { fn compile }` beside
+        `impl TargetScheme for Expression`): the inherent one wins method resolution, the rules read the trait impl;
+    (b) a crate trait implemented for a foreign type (integers, Vec<..>, str, Option, a blanket `T`) with a method named like a
+        std method of that type (`last`, `checked_mul`, `replace`): with a `&self` receiver the trait method is found before
+        auto-deref reaches the inherent one, and untouched calls such as `format.last()` change their meaning."""
+    out = []
+    trait_methods = {}
+    for tn, tr in facts.traits.items():
+        for it in tr.get("items", []) or []:
+            if isinstance(it, dict) and it.get("k") == "fn":
+                trait_methods.setdefault(it["name"], set()).add(tn)
+    for key, fn in facts.fns.items():
+        if fn.test or fn.impl is None:
+            continue
+        sty = norm_ty(fn.impl["self_ty"] or "")
+        tr = fn.impl.get("trait")
+        if not tr and fn.node.get("self") is None:
+            # an inherent associated function named like an associated function of a crate trait the type implements
+            # (`impl Comparison<u32> { fn parse }` beside the blanket `impl<P> Parseable for Comparison<P>`): `Type::f` names the inherent one
+            for tn in trait_methods.get(fn.name, ()):
+                impl_for = [norm_ty(i["self_ty"] or "") for _, _, i in facts.impls if i.get("trait") and norm_ty(i["trait"]).split("<")[0].split("::")[-1] == tn]
+                base = sty.split("<")[0]
+                if any(x.split("<")[0] == base or re.fullmatch(r"[A-Z]\w?", x) for x in impl_for):
+                    out.append(("inherent-over-trait", tuple(fn.module), "inherent `%s::%s` has the name of `%s::%s`, which the type also implements: paths written `%s::%s` resolve to the inherent one" % (sty, fn.name, tn, fn.name, base, fn.name)))
+        elif not tr:
+            # (a) inherent method named like a method of a crate trait this type (or a blanket) implements
+            for tn in trait_methods.get(fn.name, ()):
+                impl_for = [norm_ty(i["self_ty"] or "") for _, _, i in facts.impls if i.get("trait") and norm_ty(i["trait"]).split("<")[0].split("::")[-1] == tn]
+                base = sty.split("<")[0]
+                if any(x.split("<")[0] == base or re.fullmatch(r"[A-Z]\w?", x) for x in impl_for):
+                    out.append(("inherent-over-trait", tuple(fn.module), "inherent `%s::%s` has the name of `%s::%s`, which the type also implements: calls written `.%s(..)` / `%s::%s` resolve to the inherent one" % (sty, fn.name, tn, fn.name, fn.name, base, fn.name)))
+        else:
+            tname = norm_ty(tr).split("<")[0].split("::")[-1]
+            sty_r = sty
+            for _ in range(4):
+                al = facts.types.get(sty_r.lstrip("&").split("<")[0])
+                if al is None:
+                    break
+                sty_r = norm_ty(al.get("ty") or "")
+            base_r = re.sub(r"^(&|mut\s*)+", "", sty_r).split("<")[0]
+            foreign = FOREIGN.match(sty_r) or (base_r not in facts.structs and base_r not in facts.enums)
+            if tname in facts.traits and foreign and fn.name in STD_METHOD_NAMES and fn.node.get("self") is not None:
+                out.append(("trait-over-std", tuple(facts.traits[tname].get("_module") or fn.module), "crate trait `%s` gives `%s` a method `%s`, the name of a std method: where the trait is in scope, `x.%s(..)` on a `&%s` resolves to the trait's" % (tname, sty, fn.name, fn.name, sty)))
+    # dedupe
+    seen, res = set(), []
+    for x in out:
+        if x[2] not in seen:
+            seen.add(x[2])
+            res.append(x)
+    return res
+
+
+def resolution_obligation(c, facts, pid):
+    """One obligation per property: no shadowing item is visible in the part of the crate the property's rules read."""
+    hits = []
+    for mech, mod, text in shadowing(facts):
+        top = mod[0] if mod else ""
+        props = set(MODULE_PROPS.get(top, set()))
+        # a trait defined in the parser prelude or in ast.rs is glob-imported all over the parser front end
+        if top == "ast":
+            props |= MODULE_PROPS["find_parser"]
+        if pid in props or not props:
+            hits.append(text)
+    c.ob("%s.resolution" % pid, "crate", "method names resolve to the items the rules read", not hits, "; ".join(hits) if hits else "no inherent method shadows a crate trait method, no crate trait gives a std type a method with a std name", nontrivial=False)
